@@ -136,7 +136,7 @@ def _case(draw, tier):
         if fault_rate >= 10 ** 6:
             inc = draw(st.sampled_from(["none", "none", "ok", "ok_abs"]))
         else:
-            inc = draw(st.sampled_from(["none"] * 12 + ["ok", "ok_abs", "missing", "ext", "outside", "dir", "nested",
+            inc = draw(st.sampled_from(["none"] * 12 + ["ok", "ok_abs", "missing", "ext", "outside", "outside", "outside_root", "outside_symlink", "dir", "nested",
                                                         "defines_task", "syntax", "runtime", "nonstr"]))
         uses_threads = False
         if inc != "none":
@@ -208,6 +208,10 @@ def include_line(how, pkg):
         return "include('common.py')"
     if how == "outside":
         return "include('../' * 12 + 'etc/outside.cond')" if False else "include('../outside.cond')" if pkg else "include('../vf-outside.cond')"
+    if how == "outside_root":
+        return "include('//../vf-outside.cond')"
+    if how == "outside_symlink":
+        return "include('link.cond')"
     if how == "dir":
         return "include('adir.cond')"
     if how == "nonstr":
@@ -257,6 +261,11 @@ def write(root, case):
                         f.write("THREADS = 3\n")
                 if how == "dir":
                     os.makedirs(os.path.join(d, "adir.cond"), exist_ok=True)
+                if how in ("outside_root", "outside_symlink"):
+                    with open(os.path.join(os.path.dirname(root), "vf-outside.cond"), "w") as f:
+                        f.write("OUT = 1\n")
+                    if how == "outside_symlink":
+                        os.symlink(os.path.join(os.path.dirname(root), "vf-outside.cond"), os.path.join(d, "link.cond"))
                 if how == "outside":
                     tgt = os.path.join(os.path.dirname(root), "vf-outside.cond") if not pkg else os.path.join(root, "outside.cond")
                     # for pkg 'p', '../outside.cond' is still inside the project: it is a legal include
@@ -382,7 +391,8 @@ def expectation(case):
 
 
 def run_case(case):
-    root = projgen.new_scratch("c15")
+    base = projgen.new_scratch("c15")
+    root = os.path.join(base, "proj")   # so that '..' of the project is private to this case
     try:
         write(root, case)
         verdict, labels, fault_file = expectation(case)
@@ -451,8 +461,4 @@ def run_case(case):
         src = {pkg: "".join(render_stmt(s, pkg) for s in stmts) for pkg, stmts in case["files"].items()}
         return Outcome(uv, sorted(labels), nontrivial, {"verdict": verdict, "target": tid, "cond": src})
     finally:
-        projgen.rm(root)
-        try:
-            os.unlink(os.path.join(os.path.dirname(root), "vf-outside.cond"))
-        except OSError:
-            pass
+        projgen.rm(base)
